@@ -195,8 +195,11 @@ EnumDefault(f, c, s) ==
   IN IF S # {} THEN [found |-> TRUE, num |-> vs[MinOf(S)].num]
      ELSE [found |-> FALSE, num |-> IF Len(vs) = 0 THEN 0 ELSE vs[1].num]
 
+\* a field of unknown kind (`type` omitted, type_name unresolvable but tolerated): a default that is an identifier can only
+\* be the name of a value of the (placeholder) enum
+UnknownEnumKind(c) == c.kind = 0 /\ c.t.enumph
 ExplicitDefault(f, c, x) ==
-  IF c.kind = KEnum THEN [valid |-> TRUE, s |-> ToString(EnumDefault(f, c, x.def).num)]
+  IF c.kind = KEnum \/ UnknownEnumKind(c) THEN [valid |-> TRUE, s |-> ToString(EnumDefault(f, c, x.def).num)]
   ELSE [valid |-> TRUE, s |-> x.def]
 
 OptView(x, kind) ==
@@ -250,7 +253,7 @@ FieldView(ctx, f, scope, sdepth, x, c, isExt, j, K, oneofs) ==
       mapkey |-> IF c.ismap /\ key >= 0 THEN Join(c.t.msg, entry.fields[key + 1].name) ELSE "",
       mapval |-> IF c.ismap /\ val >= 0 THEN Join(c.t.msg, entry.fields[val + 1].name) ELSE "",
       hd |-> x.hd, defvalid |-> def.valid, def |-> def.s,
-      defenum |-> IF x.hd /\ c.kind = KEnum THEN x.def ELSE "",
+      defenum |-> IF x.hd /\ (c.kind = KEnum \/ UnknownEnumKind(c)) THEN x.def ELSE "",
       oneof |-> IF isExt THEN 0 ELSE x.oneof,
       oneofn |-> IF isExt \/ x.oneof = 0 THEN "" ELSE Join(scope, oneofs[x.oneof].name),
       cmsg |-> extendee.full, cmsgph |-> extendee.ph,
